@@ -871,6 +871,10 @@ class Connection(object):
         elif not conn.connected_event.is_set():
             conn.close()
             raise OperationTimedOut("Timed out creating connection (%s seconds)" % timeout)
+        elif conn.is_closed or conn.is_defunct:
+            # closed (e.g. by the server) before the handshake completed; the reactors'
+            # close() sets connected_event without recording an error
+            raise ConnectionShutdown("Connection to %s was closed during the handshake" % (endpoint,))
         else:
             return conn
 
